@@ -282,7 +282,7 @@ def run_shard(desc, seed, tier, col):
             return {'b': d.bytes(d.int(0, 24)), 'label': 'random'}
         if r <= 3:
             return {'b': grammar_tlv(d, 3), 'label': 'grammar'}
-        if r == 6 and d.pct(40):
+        if r == 6 and d.pct(75):
             # records with an ANY DEFINED BY field (decoded with open type resolution, see open_schema), intact or damaged
             gid = d.pick([1, 2, 3, 4])
             inner = {1: x690.der(INT, d.int(-300, 70000)), 2: x690.der(dict(FIXED_TYPES)['SEQUENCE'], {'a': d.int(0, 300), 'b': d.bytes(d.int(0, 4))}),
